@@ -1269,6 +1269,12 @@ def mk_call(fn, args=(), kwargs=()):
         ca = args[1].single_atom()
         if ca is not None and ca.kind == 'call' and ca.args[0] == 'len' and len(ca.args[1]) == 1 and not ca.args[2]:
             args = [args[0], mk_call('size', [ca.args[1][0]])]
+    if fn in ('size', 'len') and len(args) == 1 and not kwargs:
+        # the axes of a frame have the frame's dimensions (established by C05): size(x.ts) is x.tchans, size(x.fs) is x.fchans
+        # (applied by attribute name: for an object without those counts it is a consistent renaming on both compared sides)
+        xa_ = _strip_array(args[0]).single_atom()
+        if xa_ is not None and xa_.kind == 'attr' and xa_.args[1] in ('ts', 'fs'):
+            return mk_attr(xa_.args[0], 'tchans' if xa_.args[1] == 'ts' else 'fchans')
     if fn == 'size' and len(args) == 1 and not kwargs:
         sq = as_seq(_strip_array(args[0]))
         if sq is not None:
